@@ -184,10 +184,6 @@ def run_recipes_for_prop(prop, cfg, recipes, twin=None):
     from sim import runner, twins
 
     cfg = dict(cfg)
-    if prop == "C17" and cfg.get("enum"):
-        from sim import enumerate_faults
-
-        return enumerate_faults.replay(cfg, recipes)
     if twin is None or prop not in ("C08", "C15", "C18", "C14"):
         rr = runner.execute_run(cfg, recipes=copy.deepcopy(recipes))
         return [v.to_json() for v in rr.violations if prop in v.props]
